@@ -1,6 +1,6 @@
 #!/bin/bash
 # ./thorough_smoke.sh <ids...> — run the thorough tier of the given checks one after the other (summary on stdout)
-cd "$(dirname "$0")"
+cd "$(dirname "$0")"; mkdir -p logs
 for p in "$@"; do
   s=$(date +%s); VERIF_SEED=${VERIF_SEED:-1} ./check $p thorough > "logs/thorough-$p.out" 2>&1; rc=$?; e=$(date +%s)
   echo "$p exit=$rc wall=$((e-s))s $(grep -c '^VIOLATION' logs/thorough-$p.out) violations, $(grep -c '^KNOWN-FINDING' logs/thorough-$p.out) known, $(grep -c '^INCONCLUSIVE' logs/thorough-$p.out) inconclusive"
